@@ -25,14 +25,14 @@ type Violation struct {
 
 // Part is what one shard produced.
 type Part struct {
-	Counters   map[string]int64       `json:"counters"`
-	Max        map[string]int64       `json:"max"`
-	Info       map[string]any         `json:"info"`
-	Samples    []any                  `json:"samples"`
-	Violations map[string]*Violation  `json:"violations"`
-	Exhaustive bool                   `json:"exhaustive"`
-	Errors     []string               `json:"errors"` // harness errors (exit 2)
-	Notes      []string               `json:"notes"`
+	Counters   map[string]int64      `json:"counters"`
+	Max        map[string]int64      `json:"max"`
+	Info       map[string]any        `json:"info"`
+	Samples    []any                 `json:"samples"`
+	Violations map[string]*Violation `json:"violations"`
+	Exhaustive bool                  `json:"exhaustive"`
+	Errors     []string              `json:"errors"` // harness errors (exit 2)
+	Notes      []string              `json:"notes"`
 	distinct   map[[8]byte]struct{}
 }
 
